@@ -211,6 +211,10 @@ func mutatesSlice(c *Ctx, v ssa.Value, depth int) string {
 				}
 			}
 		case *ssa.Phi, *ssa.ChangeType, *ssa.Slice:
+			if sl, ok := x.(*ssa.Slice); ok && sl.High != nil && sl.Max == nil && appendsInto(sl, 0) {
+				// s[:k] keeps the capacity of s: append then overwrites the elements of s behind k (the "filter in place" idiom)
+				return "overwritten by append into a shortened alias of it"
+			}
 			if why := mutatesSlice(c, x.(ssa.Value), depth); why != "" {
 				return why
 			}
@@ -253,6 +257,26 @@ func mutatesSlice(c *Ctx, v ssa.Value, depth int) string {
 		}
 	}
 	return ""
+}
+
+// appendsInto: v (or a phi merging it with append results) is the first argument of an append.
+func appendsInto(v ssa.Value, depth int) bool {
+	if depth > 2 || v.Referrers() == nil {
+		return false
+	}
+	for _, ref := range *v.Referrers() {
+		switch x := ref.(type) {
+		case *ssa.Call:
+			if bi, ok := x.Call.Value.(*ssa.Builtin); ok && bi.Name() == "append" && len(x.Call.Args) > 0 && x.Call.Args[0] == v {
+				return true
+			}
+		case *ssa.Phi:
+			if appendsInto(x, depth+1) {
+				return true
+			}
+		}
+	}
+	return false
 }
 
 func runC18R2(c *Ctx, mk *ssa.Function) {
